@@ -246,3 +246,31 @@ def patch_builder(which: int, pi: int, fi: int, v: Leaf, x: int, n: int) -> bool
     except JSONPatchError as e:
         str(e)
     return ok(True)
+
+
+def pointer_only_family(text: str) -> bool:
+    """Native replay target: any text as a JSON Pointer is accepted or rejected with a pointer error; resolution likewise."""
+    try:
+        p = JSONPointer(text)
+    except JSONPointerError as e:
+        str(e)
+        return True
+    try:
+        p.resolve({"a": [1]})
+    except JSONPointerResolutionError as e:
+        str(e)
+    return True
+
+
+def patch_only_family(arg: Any) -> bool:
+    """Native replay target: building a patch from any value fails only with a patch error."""
+    try:
+        p = JSONPatch(arg)
+    except JSONPatchError as e:
+        str(e)
+        return True
+    try:
+        p.apply({"a": [1]})
+    except JSONPatchError as e:
+        str(e)
+    return True
